@@ -178,6 +178,32 @@ for nm, ty, n, t in (("c08_decode_vec_bool_12", "Vec<bool>", 12, "quick"), ("c08
     H("serde", nm, tier=t, timeout=1500, what=f"deserialize::<{ty}> returns Ok or Err for every byte string: no panic/overflow/OOB, no failed allocation for any 64-bit length prefix", bounds=f"every byte string of length {n}", functions=["utils::serde::deserialize", "bincode::serde::decode_from_slice (legacy config)"], panic_prop="C08")
 
 
+def variant(base, suffix, **kw):
+    """Same harness body instantiated for another owning property (see `pa!` in harness/*.rs)."""
+    b = ALL[base]
+    d = dict(b)
+    d["name"] = base + suffix
+    d["full"] = b["full"] + suffix
+    d.update(kw)
+    ALL[d["name"]] = d
+    return d
+
+
+for _b in ("c02_output_tail_n2_regs01", "c02_output_tail_n2_regs11"):
+    variant(_b, "__c03")
+    variant(_b, "__c01")
+for _b in ("c03_output_label_check_n2_regs01", "c03_output_label_check_n2_regs11"):
+    variant(_b, "__c02")
+for _b in ("c03_evaluate_and_arm_n2_row0", "c03_evaluate_and_arm_n2_row3"):
+    variant(_b, "__c01", tier="quick")
+variant("c01_and_gate_table_n2", "__c10")
+variant("c04_check_dvalue_tail_n2_b3", "__c02")
+variant("c04_check_dvalue_tail_n2_b3", "__c10")
+variant("c07_fashare_3c_n2", "__c04")
+variant("c07_fashare_3c_n2", "__c10")
+variant("c04_beaver_check_n2", "__c10")
+
+
 def hs(*names):
     return [ALL[n] for n in names]
 
@@ -195,8 +221,8 @@ PROPS["C01"] = dict(
     explanation="Kani/CBMC over Context::new + batch-size methods + chunk_size_iter with symbolic totals.",
     outside="totals < 2^40; at most 10 chunks (implied by the batch-size lemma); small-value iterator class total<=24/chunk<=8.",
     assumptions=[FMT, TRACING, "flush pattern 'push; if len >= batch flush; ...; if !empty flush' re-stated in c01_flush_pattern_matches_chunk_iter"],
-    harnesses=by_prefix("c01_") + by_prefix("c03_evaluate_and_arm"),
-    segments=["init_and_shares_loop", "garbler_loop", "garbler_rows", "evaluator_rows", "garbler_row_labels", "evaluate_and_arm"],
+    harnesses=[h for h in by_prefix("c01_") if not h["name"].endswith("__c10")] + hs("c03_evaluate_and_arm_n2_row0__c01", "c03_evaluate_and_arm_n2_row3__c01", "c02_output_tail_n2_regs01__c01", "c02_output_tail_n2_regs11__c01"),
+    segments=["output_tail", "init_and_shares_loop", "garbler_loop", "garbler_rows", "evaluator_rows", "garbler_row_labels", "evaluate_and_arm"],
 )
 
 PROPS["C02"] = dict(
@@ -207,7 +233,7 @@ PROPS["C02"] = dict(
     outside="n=2; max_reg_count=2; one bucket of 3; message *sequences* and cryptographic primitives are outside.",
     assumptions=[FMT, TRACING, SEG, N2],
     segments=["output_tail", "check_dvalue_tail", "output_label_check"],
-    harnesses=hs("c02_output_tail_n2_regs01", "c02_output_tail_n2_regs11", "c02_output_tail_n2_regs10", "c04_check_dvalue_tail_n2_b3", "c03_output_label_check_n2_regs01", "c03_output_label_check_n2_regs11"),
+    harnesses=hs("c02_output_tail_n2_regs01", "c02_output_tail_n2_regs11", "c02_output_tail_n2_regs10", "c04_check_dvalue_tail_n2_b3__c02", "c03_output_label_check_n2_regs01__c02", "c03_output_label_check_n2_regs11__c02"),
 )
 
 PROPS["C03"] = dict(
@@ -218,7 +244,7 @@ PROPS["C03"] = dict(
     outside="n=2; <=3 registers; cryptographic primitives outside.",
     assumptions=[FMT, TRACING, SEG, N2],
     segments=["ip_mid", "ip_post", "output_tail", "output_label_check", "evaluate_and_arm"],
-    harnesses=hs("c03_ip_mid_n2", "c03_ip_post_n2", "c03_output_label_check_n2_regs01", "c03_output_label_check_n2_regs11", "c02_output_tail_n2_regs11", "c02_output_tail_n2_regs01") + by_prefix("c03_evaluate_and_arm"),
+    harnesses=hs("c03_ip_mid_n2", "c03_ip_post_n2", "c03_output_label_check_n2_regs01", "c03_output_label_check_n2_regs11", "c02_output_tail_n2_regs11__c03", "c02_output_tail_n2_regs01__c03") + [h for h in by_prefix("c03_evaluate_and_arm") if "__" not in h["name"]],
 )
 
 PROPS["C04"] = dict(
@@ -229,7 +255,7 @@ PROPS["C04"] = dict(
     outside="n=2; orderings over message histories and coin-toss reuse are outside the technique's reach.",
     assumptions=[FMT, TRACING, SEG, N2, "open_commitment(..) -> arbitrary bool inside the fashare_3d segment (textual substitution)", "RHO shadowed by a local const 2 inside the fashare segments"],
     segments=["check_dvalue_tail", "fashare_3c", "fashare_3d", "beaver_check", "bcast_verify_tail", "flaand_tail", "fabitn_check", "kos_check"],
-    harnesses=hs("c04_check_dvalue_tail_n2_b3", "c07_fashare_3c_n2", "c04_fashare_3d_n2", "c04_beaver_check_n2", "c04_bcast_verify_tail_n3", "c04_flaand_tail_n2", "c04_fabitn_check_n2", "c04_kos_check"),
+    harnesses=hs("c04_check_dvalue_tail_n2_b3", "c07_fashare_3c_n2__c04", "c04_fashare_3d_n2", "c04_beaver_check_n2", "c04_bcast_verify_tail_n3", "c04_flaand_tail_n2", "c04_fabitn_check_n2", "c04_kos_check"),
 )
 
 PROPS["C05"] = dict(
@@ -262,7 +288,7 @@ PROPS["C08"] = dict(
     outside="byte strings of length 8, 9, 12 (18/25 in thorough); <= (N-8)/elem elements.",
     assumptions=[FMT, TRACING, SEG],
     segments=["check_dvalue_tail", "fashare_3c", "fashare_3d", "ip_mid", "ip_post", "output_tail", "output_label_check", "beaver_check", "evaluate_and_arm", "recv_vec_len_check", "scatter_len_precheck", "bcast_verify_tail", "flaand_tail", "fabitn_check", "kos_check", "ip_labels", "output_share_msg", "output_lambda_msg", "ip_pre"],
-    harnesses=by_prefix("c08_") + hs("c09_ip_pre_pattern_independent_of_shares", "c04_check_dvalue_tail_n2_b3", "c07_fashare_3c_n2", "c04_fashare_3d_n2", "c03_ip_mid_n2", "c03_ip_post_n2", "c02_output_tail_n2_regs11", "c03_output_label_check_n2_regs01", "c04_beaver_check_n2", "c04_bcast_verify_tail_n3", "c04_flaand_tail_n2", "c04_fabitn_check_n2", "c04_kos_check", "c05_output_share_msg_n3", "c05_output_lambda_msg_n3", "c07_ip_labels_one_label_per_wire") + by_prefix("c03_evaluate_and_arm"),
+    harnesses=[h for h in by_prefix("c08_")] + hs("c09_ip_pre_pattern_independent_of_shares", "c04_check_dvalue_tail_n2_b3", "c07_fashare_3c_n2", "c04_fashare_3d_n2", "c03_ip_mid_n2", "c03_ip_post_n2", "c02_output_tail_n2_regs11", "c03_output_label_check_n2_regs01", "c04_beaver_check_n2", "c04_bcast_verify_tail_n3", "c04_flaand_tail_n2", "c04_fabitn_check_n2", "c04_kos_check", "c05_output_share_msg_n3", "c05_output_lambda_msg_n3", "c07_ip_labels_one_label_per_wire") + [h for h in by_prefix("c03_evaluate_and_arm") if "__" not in h["name"]],
 )
 
 PROPS["C09"] = dict(
@@ -284,7 +310,7 @@ PROPS["C10"] = dict(
     outside="n <= 3 (4 for XOR); stated length classes of chunked_update_with_rbits.",
     assumptions=[FMT, TRACING, "pairwise IT-MAC relation assumed on inputs (representation invariant)", SEG],
     segments=["beaver_check", "beaver_final", "check_dvalue_tail", "garbler_rows", "evaluator_rows", "garbler_row_labels"],
-    harnesses=by_prefix("c10_") + hs("c04_beaver_check_n2", "c04_check_dvalue_tail_n2_b3", "c07_fashare_3c_n2", "c01_and_gate_table_n2"),
+    harnesses=by_prefix("c10_") + hs("c04_beaver_check_n2__c10", "c04_check_dvalue_tail_n2_b3__c10", "c07_fashare_3c_n2__c10", "c01_and_gate_table_n2__c10"),
 )
 
 PROPS["C11"] = dict(
